@@ -613,6 +613,7 @@ func (x *restExec) run(h http.Handler) bool {
 	case <-x.workDone:
 		x.joined = true
 	case <-t.C:
+		stuck.Store(true)
 		close(x.giveUp)
 		return false
 	}
@@ -620,6 +621,7 @@ func (x *restExec) run(h http.Handler) bool {
 	select {
 	case <-x.cancellerEnd:
 	case <-t.C:
+		stuck.Store(true)
 		return false
 	}
 	return true
@@ -1034,7 +1036,22 @@ func restCancelCase(c *kit.Case) {
 	census(c, rp)
 }
 
+// leakKey names the innermost non-runtime frames of a leaked goroutine (the label line of
+// the profile is dropped).
+func leakKey(stack string) string {
+	var keep []string
+	for _, ln := range strings.Split(stack, "\n") {
+		if !strings.Contains(ln, "verif_case") {
+			keep = append(keep, ln)
+		}
+	}
+	return kit.KeyPart(kit.TopFrames(strings.Join(keep, "\n"), 2))
+}
+
 func census(c *kit.Case, rp reporter) {
+	if stuck.Load() {
+		return // an unjoined wrapper call is reported as inconclusive, not as a leak
+	}
 	leaked, conclusive := kit.Census(c.ID, 300*time.Millisecond, 4, 30*time.Second)
 	c.Obs("census", 1)
 	if !conclusive {
@@ -1042,7 +1059,7 @@ func census(c *kit.Case, rp reporter) {
 		return
 	}
 	for _, g := range leaked {
-		rp.viol("leak", kit.KeyPart(kit.TopFrames(g.Stack, 2)), fmt.Sprintf("%d goroutine(s) still parked with an identical stack after the work returned", g.Count), map[string]any{"stack": g.Stack, "count": g.Count})
+		rp.viol("leak", leakKey(g.Stack), fmt.Sprintf("%d goroutine(s) still parked with an identical stack after the work returned", g.Count), map[string]any{"stack": g.Stack, "count": g.Count})
 	}
 }
 
@@ -1331,6 +1348,7 @@ func (x *fxExec) run() bool {
 	select {
 	case <-x.workDone:
 	case <-t.C:
+		stuck.Store(true)
 		close(x.giveUp)
 		return false
 	}
@@ -1338,6 +1356,7 @@ func (x *fxExec) run() bool {
 	select {
 	case <-x.cEnd:
 	case <-t.C:
+		stuck.Store(true)
 		return false
 	}
 	return true
